@@ -249,6 +249,14 @@ P("C14",
   assumptions=["bbolt opened with NoSync for speed: durability is C05's subject, not this unit's"],
   units=[
    U("c14.spec", "c14", "TestSpec", "Write/partial update/reopen/Read == model for every field", Q(6000, 4), T(600000), min_nontrivial_frac=0.4),
+   U("c14.registry", "c14", "TestRegistry",
+     "histories of 3-14 operations (add .torrent / magnet with generated ids, options, tracker tiers and web seeds; invalid metainfo; remove; start; stop; add tracker; upload "
+     "traffic to a scripted leecher; 2-6 concurrent adds with one explicit id or generated ids; 3 concurrent removes; compact-and-continue-on-the-compacted-file; close+reopen "
+     "with resume-on-startup on/off) on a real Session with a range of 2-5 ports, against a registry model: after every step ids unique and equal to the model's, ports unique, "
+     "in range, unchanged and conserved (free == range - torrents), adds fail exactly when the id is in use or no port is free; at every close the database is read with the "
+     "harness's own bbolt handle: records == torrents of the session, every field == what the torrent was added with / reported just before the close (started flag, counters); "
+     "after reopen the same torrents, ports, counters, tracker and web-seed counts and running state; the compacted file holds every torrent with metadata with the same fields",
+     Q(96, 16, 900), T(4000, 16), shrinktime="30s"),
   ])
 
 P("C17",
